@@ -628,6 +628,9 @@ func VHString() {
 // VHHistory: D operations in a row from the constructor (see VMapHistory).
 func VHHistory() {
 	t := NewWith[int, int](v.CfgOr("m", 3), vl.Cmp)
+	if v.CfgOr("ctor", 0) == 1 { // the default-comparator constructor (cmp.Compare); only meaningful with cmp=0
+		t = New[int, int](v.CfgOr("m", 3))
+	}
 	maps.VMapHistory(t, maps.VKind{Name: "BTree", SortedKeys: true, Inv: func() { VInv(t) }})
 }
 
